@@ -12,6 +12,11 @@ MOD = "c19"
 SPEC = "Merge"
 
 QUIRK_WHAT = {
+    "VecMapCopyDiffers": "a map that stores through a vector-valued pointer is not copied faithfully: such a store deletes the "
+                         "items of the locations it may write (or keeps its own item at the old position), so use()/eval() - "
+                         "hence the assume() copies merge() joins - replay the remaining items to a different memory and the "
+                         "merge covers the copy, not the map (m[v]=vec([p,p+2]); m[mem(p+1,8)]=y; m[mem(p,32)]=x; "
+                         "m[mem(v,8)]=z: byte p+1 is x[8:16] in m and y in m.assume([]))",
     "VecKeyRewriteOrder": "re-writing a vector-valued pointer key keeps its old position in the map's item list while its "
                           "bytes are written last in memory: every copy of the map (use/eval, hence the assume() copies "
                           "merge() works on) replays the items in list order and no longer holds what the map held, so the "
@@ -125,8 +130,8 @@ def _validate(args):
 
 
 def _shape(b):
-    f = lambda ops: tuple((o["o"], o.get("r", ""), o.get("off", -1), o.get("n", 0), o.get("e", 0)) for o in ops)
-    return (f(b["pre"]), f(b["b1"]), f(b["b2"]), b["w"], b["t"], b["c1"], b["c2"])
+    f = lambda ops: tuple((o["o"], o.get("r", ""), o.get("off", -1), o.get("n", 0), o.get("e", 0), o.get("k", 0), o.get("d", 0)) for o in ops)
+    return (f(b["pre"]), f(b["b1"]), f(b["b2"]), f(b.get("b3", [])), b["w"], b.get("w2", 0), b["t"], b["c1"], b["c2"])
 
 
 def _nontrivial(b):
@@ -136,6 +141,14 @@ def _nontrivial(b):
 
 
 def validate(ctx, traces, kind):
+    flat = []
+    for t in traces:
+        t2 = t.pop("second", None)
+        flat.append(t)
+        if t2 is not None:
+            t2["src"] = t.get("src", kind)
+            flat.append(t2)
+    traces = flat
     for i, t in enumerate(traces):
         t["t"] = i + 1
     wd = tlc.workdir("c19val_" + kind)
@@ -162,16 +175,19 @@ def validate(ctx, traces, kind):
         if v is None:
             raise tlc.MachineryError("no verdict for trace %s (%s)" % (t["t"], kind))
         b = t["beh"]
-        ctx.case(key=_shape(b) if _nontrivial(b) else None)
+        ctx.case(key=_shape(b) + (t.get("stage", 1),) if _nontrivial(b) else None)
         ctx.trace()
         ctx.count("valuations_checked", v["nsat"])
-        ctx.count("merges_%s" % ("widening" if b["w"] else "threshold" if b["t"] else "plain"))
+        ctx.count("merges_%s" % ("widening" if t["w"] else "threshold" if b["t"] else "plain"))
+        if t.get("stage") == 2:
+            ctx.count("second_merges_of_a_chain")
+        ctx.count("concrete_evaluations_of_the_merged_map", len([e for e in t.get("ev", []) if not e["raised"]]))
         if v["v"] == "ok":
             if _nontrivial(b) and len(ctx.samples) < 4:
                 ctx.sample({"source": t.get("src", kind), "behaviour": b, "threshold": t["thr"], "verdict": "ok"}, cap=4)
             continue
-        brief = "%s case %s (thr=%s na=%s scale=%s): clause %s at %s%s" % (
-            t.get("src", kind), json.dumps(b), t["thr"], t["na"], t["scale"], v["clause"], json.dumps(v["what"]),
+        brief = "%s case %s (merge #%s thr=%s na=%s scale=%s): clause %s at %s%s" % (
+            t.get("src", kind), json.dumps(b), t.get("stage", 1), t["thr"], t["na"], t["scale"], v["clause"], json.dumps(v["what"]),
             (" raised " + t["raised"] + " in " + t["at"]) if t["raised"] else "")
         rep = {"behaviour": b, "seed_case": t.get("seed_case"), "verdict": v}
         if v["quirks"]:
